@@ -178,7 +178,7 @@ def verdictName : Verdict → String
 def siteVerdicts (site : Site) : List Verdict :=
   let form := site.2.2.1
   if form = "tail" then [.handsOn]
-  else if form = "assign" || form = "if-init" then verdicts (failed true) site.2.2.2
+  else if form = "assign" || form = "if-init" then verdictsC (failed true) site.2.2.2
   else [.swallows]
 
 /-- the caller fails whichever way it goes: with the reader's error, or (a write of the values read
@@ -216,7 +216,8 @@ theorem row_reader_callers_hand_the_error_on :
 theorem row_reader_forks_known :
     (rowReaderCalls.filter (fun s => (siteVerdicts s).length > 1)).map
         (fun s => (s.1, (siteVerdicts s).map verdictName)) =
-      [("copyColumnValues", ["other-error", "hands-on"])] := by decide
+      [("convertedValueReader.ReadValues", ["other-error", "hands-on"]),
+       ("copyColumnValues", ["other-error", "hands-on"])] := by decide
 
 /-- the verdict of every site (first branch taken), pinned: a site turning from handing the error on
     to anything else, a new caller, or a vanished one breaks this obligation -/
@@ -240,7 +241,7 @@ theorem row_reader_verdicts :
       ("concatenatingRowsWrapper.ReadRows", "ReadRows", "hands-on"),
       ("concatenatingRowsWrapper.SeekToRow", "ReadRows", "hands-on"),
       ("convertedRows.ReadRows", "ReadRows", "hands-on"),
-      ("convertedValueReader.ReadValues", "ReadValues", "hands-on"),
+      ("convertedValueReader.ReadValues", "ReadValues", "unresolved"),
       ("copyColumnValues", "ReadValues", "unresolved"),
       ("copyRows", "ReadRows", "hands-on"),
       ("copyValues", "ReadValues", "hands-on"),
